@@ -414,6 +414,20 @@ class Engine:
             recv_d = self.dotted(f.value)
             if recv_d == 'logging': return NONE                                    # logging.* dropped
             recv = self.ev(f.value, p)
+            if recv.kind.startswith('dict[') and f.attr == 'pop' and len(args) in (1, 2):
+                # d.pop(k[, default]): the key leaves the ordered key sequence (later keys move up by one)
+                K, Vk, keys, has, mp, n = self.dparts(recv, p); kt = self.ev(args[0], p).term; present = has[kt]
+                if len(args) == 1:
+                    self.emit(p, f'no-KeyError@{line}', present, line); p.pc.append(present); dflt = None
+                else: dflt = self.ev(args[1], p)
+                pos = fresh('pop_pos', I); p.pc.append(Implies(present, And(0 <= pos, pos < n, keys[pos] == kt)))
+                for fld in (dkeys_field(K), dhas_field(K), '$len'): self.frame(p, recv.term, fld, line)
+                nk = fresh('dk_pop', p.heap.fsort(dkeys_field(K))); ARR_SIG[nk.decl().name()] = _canon_arr(keys)
+                p.facts.append(Schematic(1, lambda i, nk=nk, keys=keys, pos=pos, n=n: Implies(And(0 <= i, i < n - 1), nk[i] == If(i < pos, keys[i], keys[i + 1])), 'dict.pop'))
+                p.heap.store(recv.term, dkeys_field(K), If(present, nk, keys)); p.heap.store(recv.term, '$len', If(present, n - 1, n))
+                p.heap.store(recv.term, dhas_field(K), z3.Store(has, kt, False))
+                val = mp[kt] if dflt is None else If(present, mp[kt], dflt.term)
+                return self.mk(Vk, val)
             if recv.kind.startswith('set['):
                 K = recv.kind[4:-1]; fld = dhas_field(K); has = p.heap.load(recv.term, fld)
                 if f.attr == 'add':
@@ -591,11 +605,12 @@ class Engine:
         saved_rec, saved_loc = set(REC), {k_: list(v_) for k_, v_ in REC_LOC.items()}; REC.clear(); REC_LOC.clear(); self.mute += 1
         dry_syms = set()
         try:
-            d = p.fork(); di = fresh(f'dry{k}', I); dry_syms.add(di.get_id()); d.pc += [0 <= di, di < n]
+            d = p.fork(); di = fresh(f'dry{k}', I); dry_syms.add(di.get_id()); d.pc += [0 <= di, di < n]; n_fresh0 = len(d.fresh); dry_paths = [d]
             for nme in wn:                      # locals assigned in the body hold arbitrary values in an arbitrary iteration
                 if nme in d.env and (d.env[nme].kind in ('int', 'bool', 'str', 'ref') or d.env[nme].kind.startswith('list[')):
                     c = fresh(f'dry_{nme}', sort_of(d.env[nme].kind)); dry_syms.add(c.get_id()); d.env[nme] = V(d.env[nme].kind, c)
-            bindf(d, di); d.env[f'$i{k}'] = vint(di); self.block(s.body, d)
+            bindf(d, di); d.env[f'$i{k}'] = vint(di)
+            for o_ in self.block(s.body, d): dry_paths.append(o_.path)
         finally:
             self.mute -= 1
         wf = set(REC); locs = {k_: list(v_) for k_, v_ in REC_LOC.items()}
@@ -623,9 +638,14 @@ class Engine:
                         if nm_ in wf: return False
                 return all(ok(c) for c in t.children())
             return ok(r)
+        # objects allocated by the body itself are new in every iteration: stores to them cannot change any object that exists at the loop
+        # head, so they need no havoc at all (and the dry run's names for them mean nothing on the real path)
+        dry_fresh = {r.get_id() for q_ in dry_paths for r in q_.fresh[n_fresh0:]}
         precise = {}
-        for f in wf:
-            rs = locs.get(f, [None])
+        for f in list(wf):
+            rs0 = locs.get(f, [None])
+            rs = [r for r in rs0 if r is None or r.get_id() not in dry_fresh]
+            if not rs and rs0: wf.discard(f); continue
             if rs and all(r is not None and invariant_ref(r) for r in rs):
                 uniq = {}
                 for r in rs: uniq[r.get_id()] = r
@@ -806,7 +826,10 @@ def _decide_one(i):
         # no counter-model in the small scope: the stage-1 `sat` was an artefact of incomplete instantiation -> deeper instantiation
         r3, dt3, ninst, s3 = discharge_typed(ob, timeout=timeout, rounds=6, cap_per_var=120, max_inst=40000)
         if r3 == z3.unsat: return (i, 'proved', dt + dt2 + dt3, f'{ninst} instances (deep)', None)
-        return (i, 'unknown', dt + dt2 + dt3, f'stage1={r} stage2={r2} stage3={r3}', None)
+        # last resort: untyped eager instantiation over every index term (+-1): heavier, but independent of the signature heuristics
+        r4, dt4, ninst4, s4 = discharge(ob, timeout=timeout, cap=30)
+        if r4 == z3.unsat: return (i, 'proved', dt + dt2 + dt3 + dt4, f'{ninst4} instances (untyped)', None)
+        return (i, 'unknown', dt + dt2 + dt3 + dt4, f'stage1={r} stage2={r2} stage3={r3} stage4={r4}', None)
     except Exception as e:
         import traceback; return (i, 'error', 0.0, traceback.format_exc()[-600:], None)
 
@@ -863,7 +886,10 @@ def _occurrences(exprs, placeholders):
         if i in memo: return memo[i]
         r = (i in ph) or any(has_ph(c) for c in t.children()); memo[i] = r; return r
     def note(idx, sig):
-        if not z3.is_int(idx) or z3.is_int_value(idx): return
+        if not z3.is_int(idx): return
+        if z3.is_int_value(idx):
+            if -1 <= idx.as_long() <= 4: ground.setdefault(sig, {})[idx.get_id()] = idx
+            return
         if not has_ph(idx):
             ground.setdefault(sig, {})[idx.get_id()] = idx; return
         if idx.get_id() in ph: pats.setdefault(idx.get_id(), set()).add((0, sig)); return
@@ -919,7 +945,8 @@ def discharge_typed(ob, timeout=60000, rounds=3, extra_hyps=(), cap_per_var=40, 
                 if not pats[k]:
                     for t in list(allg.values())[:cap_per_var]: cand[t.get_id()] = t
                     z0 = z3.IntVal(0); cand[z0.get_id()] = z0
-                c = sorted(cand.values(), key=_term_key)[:cap_per_var]
+                lits = [t for t in cand.values() if z3.is_int_value(t)]
+                c = sorted((t for t in cand.values() if not z3.is_int_value(t)), key=_term_key)[:cap_per_var] + sorted(lits, key=_term_key)      # literals never crowd out symbolic terms
                 doms.append(c)
             for args in itertools.product(*doms):
                 key = (id(sc),) + tuple(a.get_id() for a in args)
